@@ -36,6 +36,21 @@ def replaceFirst (s old new : Bytes) : Bytes :=
   | none => s
   | some i => s.take i ++ new ++ s.drop (i + old.length)
 
+/-- `strings.Split s sep` for a one-byte separator. -/
+def splitOn1 (sep : UInt8) : Bytes → Bytes → List Bytes
+  | [], cur => [cur.reverse]
+  | c :: t, cur => if c = sep then cur.reverse :: splitOn1 sep t [] else splitOn1 sep t (c :: cur)
+
+def split (s sep : Bytes) : List Bytes :=
+  match sep with
+  | [c] => splitOn1 c s []
+  | _ => [s]                       -- only single-byte separators occur in the repo
+
+def isSpace (c : UInt8) : Bool := c = 32 || c = 9 || c = 10 || c = 11 || c = 12 || c = 13
+
+/-- `strings.TrimSpace` (ASCII white space) -/
+def trimSpace (s : Bytes) : Bytes := ((s.dropWhile isSpace).reverse.dropWhile isSpace).reverse
+
 /-- `strings.CutPrefix`. -/
 def cutPrefix (s p : Bytes) : Option Bytes :=
   if p.isPrefixOf s then some (s.drop p.length) else none
